@@ -2107,7 +2107,7 @@ def check_failops(ctx, rep, rng, count):
 
 
 def _run_parts(ctx, rep):
-    """Workers 0-4: the parts (A)-(D), (E), (G), (H), (J)+(K); the other workers: part (I).  With fewer than seven
+    """Workers 0-3: the parts (A)-(D), (E), (G)+(J)+(K), (H); the other workers: part (I).  With fewer than six
     workers: everything in a row in worker 0."""
     quick = ctx.tier == 'quick'
     n_i = (5000 if quick else 90000) * ctx.scale
@@ -2166,11 +2166,11 @@ def legacy_h(ctx, rep):
 
 
 def part_j(ctx, rep):
-    ar.check_ctor_routes(ctx, rep, ctx.sub_rng('ctor-routes'), (450 if ctx.tier == 'quick' else 9000) * ctx.scale)
+    ar.check_ctor_routes(ctx, rep, ctx.sub_rng('ctor-routes'), (400 if ctx.tier == 'quick' else 9000) * ctx.scale)
 
 
 def part_k(ctx, rep):
-    ar.check_name_forms(ctx, rep, ctx.sub_rng('name-forms'), (350 if ctx.tier == 'quick' else 7000) * ctx.scale)
+    ar.check_name_forms(ctx, rep, ctx.sub_rng('name-forms'), (300 if ctx.tier == 'quick' else 7000) * ctx.scale)
 
 
 def part_jk(ctx, rep):
@@ -2178,7 +2178,13 @@ def part_jk(ctx, rep):
     part_k(ctx, rep)
 
 
-LEGACY = [legacy_ad, legacy_e, legacy_g, legacy_h, part_jk]
+def legacy_g_jk(ctx, rep):
+    """(G), (J), (K) share a worker (together they are shorter than one share of (I))."""
+    legacy_g(ctx, rep)
+    part_jk(ctx, rep)
+
+
+LEGACY = [legacy_ad, legacy_e, legacy_g_jk, legacy_h]
 
 
 def run(ctx, rep):
